@@ -81,6 +81,7 @@ func RunAll(run *hlib.Run, prop string, sigPrefixes []string, n int) {
 		if setups > 0 {
 			run.Nontrivial(fmt.Sprintf("%v|%v|%d|%s|%v|%d", ks, sc.Behaviour, sc.Ghosts, sc.Strategy, sc.AutoCommit, sc.CloseInSession))
 		}
+		run.Emit("scmark gs "+strconv.FormatUint(s, 10), "ok")
 		for _, l := range TraceLines(res) {
 			run.Emit(l, "ok")
 		}
